@@ -46,6 +46,7 @@ var profile = sim.Profile{
 	Prefixes: []int{0, 3, 99, 100, 100, 101, 102, 104, 110, 125},
 	IdlePct:  4,
 	Halving:  true,
+	Signed:   true,
 }
 
 func TestConnect(t *testing.T) {
